@@ -42,6 +42,12 @@ type Hooks struct {
 	Panic func(in *Interp, v Val, site ssa.Instruction)
 }
 
+// CondRec is one symbolic branch decision of a path.
+type CondRec struct {
+	V Val
+	B bool
+}
+
 // PathEnd is how a path terminated abnormally.
 type PathEnd struct {
 	Kind string // "panic", "undecided", "budget"
@@ -120,6 +126,7 @@ type Interp struct {
 	Globals map[*ssa.Global]*Cell
 	Conds   map[string]bool // memo of symbolic branch decisions on this path
 	CondLog []string
+	CondV   []CondRec
 	Steps   int
 	MaxStep int
 	Depth   int
@@ -232,6 +239,7 @@ func (in *Interp) Decide(cond Val, site ssa.Instruction) bool {
 	b := c == 0
 	in.Conds[k] = b
 	in.CondLog = append(in.CondLog, fmt.Sprintf("%s := %v", k, b))
+	in.CondV = append(in.CondV, CondRec{V: cond, B: b})
 	return b
 }
 
